@@ -32,6 +32,7 @@ type GenCfg struct {
 	MaxNodes int
 	MaxStmts int
 	MaxDepth int
+	MaxTotal int // budget of generated statements per program (0 = 40)
 	// weights of statement kinds
 	WLine, WOptions, WIf, WSet, WDeclare, WJump, WJumpE, WStop, WCall, WCommand, WWait int
 	NVars                                                                              [3]int // numbers, booleans, strings
@@ -61,6 +62,7 @@ type gen struct {
 	titles  []string
 	lineSeq int
 	faults  int
+	total   int
 	vars    [3][]string
 	jvars   []string
 }
@@ -166,9 +168,21 @@ func (g *gen) strLit() string {
 }
 
 func (g *gen) body(depth int) []*Stmt {
-	n := g.tp.Int(0, g.cfg.MaxStmts, "nstmts")
+	max := g.cfg.MaxStmts - depth
+	if max < 1 {
+		max = 1
+	}
+	n := g.tp.Int(0, max, "nstmts")
+	budget := g.cfg.MaxTotal
+	if budget == 0 {
+		budget = 40
+	}
 	var out []*Stmt
 	for i := 0; i < n; i++ {
+		if g.total >= budget {
+			break
+		}
+		g.total++
 		s := g.stmt(depth)
 		if s == nil {
 			continue
@@ -291,7 +305,7 @@ func (g *gen) lineS(isOption bool) *LineS {
 func (g *gen) line() *Stmt { return &Stmt{K: sLine, Line: g.lineS(false)} }
 
 func (g *gen) options(depth int) *Stmt {
-	n := g.tp.Int(1, 4, "nopts")
+	n := g.tp.Int(1, 4-min(depth, 2), "nopts")
 	s := &Stmt{K: sOptions}
 	for i := 0; i < n; i++ {
 		o := &Option{Line: g.lineS(true)}
